@@ -9,13 +9,6 @@ Fixpoint bs (s : string) : bytes :=
 Definition nl : string := String (ascii_of_nat 10) EmptyString.
 Definition semi : bytes := [59%N].
 
-(** the statements a reader returns for the up file a formatter writes *)
-Definition roundtrip (F : format) (o : opts) (now : bytes) (p : plan) : option (list bytes) :=
-  texts (read F o (up_content F now p)).
-(** what property C07 requires: the planned commands (with the delimiter the scanner keeps) *)
-Definition planned (o : opts) (d : bytes) (p : plan) : option (list bytes) :=
-  Some (map (fun c => stmt_text o d (c_cmd c)) (p_changes p)).
-
 Definition plan1 (cmds : list (string * string)) : plan :=
   mkPlan [] [] [] [] (map (fun cc => mkChange (bs (fst cc)) (bs (snd cc)) []) cmds).
 
